@@ -458,6 +458,15 @@ func analyseWalk(gc *GCNF, k int, foreign map[string]lin) (walkInfo, []string, b
 				return v.add(linConst(1), -1), true
 			}
 		}
+		// the ends of the list themselves: first is position 0, last position size-1
+		if t.Op == "load" && len(t.Args) == 1 && t.Args[0].Op == "fa" && len(t.Args[0].Args) == 1 && t.Args[0].Args[0].String() == "p:0" {
+			switch t.Args[0].Leaf {
+			case "first":
+				return linConst(0), true
+			case "last":
+				return S.add(linConst(1), -1), true
+			}
+		}
 		return lin{}, false
 	}
 	var valuePos []string
@@ -575,6 +584,44 @@ func ruleR39(c *Ctx) *RuleResult {
 						for _, ef := range g.Effects {
 							if storeToField(ef, f) && ef.Args[0].Args[0].String() == "p:0" {
 								stored = true
+								// the new end is the removed element's neighbour: first = removed.next, last = removed.prev —
+								// where "removed" is what the path knows to be the old end
+								v := ef.Args[1]
+								hop := map[string]string{"first": "next", "last": "prev"}[f]
+								if v.Op == "load" && len(v.Args) == 1 && v.Args[0].Op == "fa" && (v.Args[0].Leaf == "next" || v.Args[0].Leaf == "prev") && len(v.Args[0].Args) == 1 {
+									x := v.Args[0].Args[0]
+									isEnd := func(t *Term) bool {
+										return t.Op == "load" && len(t.Args) == 1 && t.Args[0].Op == "fa" && t.Args[0].Leaf == f && t.Args[0].Args[0].String() == "p:0"
+									}
+									okX := isEnd(x)
+									back := map[string]string{"first": "prev", "last": "next"}[f]
+									for _, a := range g.Guards {
+										if a.Op == "==" && len(a.Args) == 2 {
+											if (isEnd(a.Args[0]) && noEpoch(a.Args[1]) == noEpoch(x)) || (isEnd(a.Args[1]) && noEpoch(a.Args[0]) == noEpoch(x)) {
+												okX = true
+											}
+											// a walk whose trailing pointer is still nil has not left the head (singly linked: no prev field)
+											if f == "first" && x.Op == "φ" {
+												for i := 0; i < 2; i++ {
+													y := a.Args[1-i]
+													if a.Args[i].String() == "#:nil" && y.Op == "φ" && y.Leaf != x.Leaf && strings.SplitN(y.Leaf, ".", 2)[0] == strings.SplitN(x.Leaf, ".", 2)[0] {
+														okX = true
+													}
+												}
+											}
+											// an element without a predecessor is the first one, one without a successor the last one
+											for i := 0; i < 2; i++ {
+												y := a.Args[1-i]
+												if a.Args[i].String() == "#:nil" && y.Op == "load" && len(y.Args) == 1 && y.Args[0].Op == "fa" && y.Args[0].Leaf == back && len(y.Args[0].Args) == 1 && noEpoch(y.Args[0].Args[0]) == noEpoch(x) {
+													okX = true
+												}
+											}
+										}
+									}
+									if !okX || v.Args[0].Leaf != hop {
+										bad = append(bad, fmt.Sprintf("a removing path sets %s to %s, which is not the .%s of the element it knows to be the old %s", f, trunc(noEpoch(v), 100), hop, f))
+									}
+								}
 							}
 						}
 						for _, a := range g.Guards {
@@ -642,6 +689,49 @@ func ruleR39(c *Ctx) *RuleResult {
 						if !stored && !known {
 							bad = append(bad, fmt.Sprintf("a removing path neither stores %s nor knows that the removed element is not the %s one: %s", f, f, trunc(guardsString(g), 240)))
 						}
+					}
+				}
+			}
+			// TAILNIL: a fresh element that becomes the tail (last = n) while its next points at the current head
+			// (n.next = first) is right only when the list is empty *now* — the path must know that from a size / end test of
+			// the current round, not from one taken before the loop
+			for _, g := range gc.GCs {
+				fresh := map[string]*Term{} // new element → what its next was set to
+				for _, ef := range g.Effects {
+					if storeToField(ef, "next") && ef.Args[0].Args[0].Op == "new" {
+						fresh[noEpoch(ef.Args[0].Args[0])] = ef.Args[1]
+					}
+				}
+				for _, ef := range g.Effects {
+					if !(storeToField(ef, "last") && ef.Args[0].Args[0].String() == "p:0" && ef.Args[1].Op == "new") {
+						continue
+					}
+					nx, ok := fresh[noEpoch(ef.Args[1])]
+					if !ok || !(nx.Op == "load" && len(nx.Args) == 1 && nx.Args[0].Op == "fa" && nx.Args[0].Leaf == "first" && nx.Args[0].Args[0].String() == "p:0") {
+						continue
+					}
+					n++
+					emptyNow := false
+					for _, a := range g.Guards {
+						if a.Op != "==" || len(a.Args) != 2 {
+							continue
+						}
+						for i := 0; i < 2; i++ {
+							k, x := a.Args[i], a.Args[1-i]
+							if !(x.Op == "load" && len(x.Args) == 1 && x.Args[0].Op == "fa" && len(x.Args[0].Args) == 1 && x.Args[0].Args[0].String() == "p:0") {
+								continue
+							}
+							m := verRe.FindStringSubmatch(x.Leaf)
+							if m == nil || atoiOr(m[2], 1) != 0 {
+								continue // read before the loop, or after this path already stored the field
+							}
+							if (k.String() == "#:0" && x.Args[0].Leaf == "size") || (k.String() == "#:nil" && (x.Args[0].Leaf == "first" || x.Args[0].Leaf == "last")) {
+								emptyNow = true
+							}
+						}
+					}
+					if !emptyNow {
+						bad = append(bad, fmt.Sprintf("a new element whose next is the current head becomes the tail on a path that does not know the list is empty at that moment (a test taken before the loop says nothing about later rounds): %s", trunc(g.String(), 240)))
 					}
 				}
 			}
